@@ -91,19 +91,20 @@ int main(int argc, char **argv) {
     { // controls changed while the note sounds: the level written by the refresh must be the level a fresh note gets under the same settings
       static const int VELS_Q[] = {1, 64, 127}, VELS_T[] = {1, 16, 32, 64, 100, 126, 127}; static const int ALGS_Q[] = {7, 4, 0};
       static int NV, NA; NV = thorough ? 7 : 3; NA = thorough ? 8 : 3; static bool TH; TH = thorough;
-      en::Family F; F.name = "changes_on_held_note"; F.count = (uint64_t)5 * NA * NV * 3; F.chunk = 1; F.budget_s = 120; F.describe = std::string("5 volume models x algorithm ") + (thorough ? "0..7" : "{7,4,0}") + " x velocity " + (thorough ? "{1,16,32,64,100,126,127}" : "{1,64,127}") + " x control {SysEx master volume, CC7, CC11}: with the note held, every ordered pair (previous value, new value) in 0..127 x 0..127 is sent; after the second message the total levels must equal those of a fresh note started under the new value (16384 pairs each), and stay within 0..127";
+      en::Family F; F.name = "changes_on_held_note"; F.count = (uint64_t)5 * NA * NV * 3; F.chunk = 1; F.budget_s = 120; F.describe = std::string("5 volume models x algorithm ") + (thorough ? "0..7" : "{7,4,0}") + " x velocity " + (thorough ? "{1,16,32,64,100,126,127}" : "{1,64,127}") + " x control {SysEx master volume, CC7, CC11}: with the note held, every ordered pair (previous value, new value) in 0..127 x 0..127 is sent; after each message the levels written by the refresh must obey the clauses of the statement (zero silences the carriers, a larger value never attenuates more and a smaller one never less, modulators untouched, range 0..127; 16384 pairs each)";
       F.run = [](uint64_t i, en::CaseOut &o) { int model = 1 + (int)(i % 5), alg = TH ? (int)((i / 5) % NA) : ALGS_Q[(i / 5) % NA], vel = (TH ? VELS_T : VELS_Q)[(i / 5 / NA) % NV], ctl = (int)(i / 5 / NA / NV);
         static const char *CN[] = {"master volume", "channel volume (CC7)", "expression (CC11)"};
         std::string ctx = std::string(" [model ") + MODEL[model] + ", algorithm " + std::to_string(alg) + ", velocity " + std::to_string(vel) + ", " + CN[ctl] + " changed on a held note]"; char b[300];
         auto apply = [&](OPN2_MIDIPlayer *d, int v) { if(ctl == 0) master(d, v); else opn2_rt_controllerChange(d, 0, ctl == 1 ? 7 : 11, (OPN2_UInt8)v); };
-        // reference: the value in force before the note starts
-        static uint8_t ref[128][4];
-        for(int v = 0; v < 128; v++) { pl::Instance R; if(!setup(R, model, alg, 20, 0, 0)) { o.fail("C11/harness", "setup"); return; } apply(R.dev, v); opn2_rt_noteOn(R.dev, 0, 60, (OPN2_UInt8)vel); read_tl(R, ref[v]); }
+        // the statement's own clauses, applied to the levels that the refresh of a sounding note writes: zero silences, more never attenuates more, less never attenuates less
         pl::Instance H; if(!setup(H, model, alg, 20, 0, 0)) { o.fail("C11/harness", "setup"); return; }
         opn2_rt_noteOn(H.dev, 0, 60, (OPN2_UInt8)vel);
-        for(int v1 = 0; v1 < 128; v1++) for(int v2 = 0; v2 < 128; v2++) { apply(H.dev, v1); apply(H.dev, v2); uint8_t tl[4]; read_tl(H, tl);
-            if(memcmp(tl, ref[v2], 4)) { snprintf(b, sizeof b, "%s %d -> %d on a sounding note: total levels %u %u %u %u, a note started under %d gets %u %u %u %u", CN[ctl], v1, v2, tl[0], tl[1], tl[2], tl[3], v2, ref[v2][0], ref[v2][1], ref[v2][2], ref[v2][3]);
-                o.fail(std::string("C11/held-note-refresh/") + (ctl == 0 ? "master" : ctl == 1 ? "volume" : "expression"), b + ctx); return; } }
+        const char *cn = ctl == 0 ? "master" : ctl == 1 ? "volume" : "expression";
+        for(int v1 = 0; v1 < 128; v1++) for(int v2 = 0; v2 < 128; v2++) { uint8_t t1[4], t2[4]; apply(H.dev, v1); read_tl(H, t1); apply(H.dev, v2); read_tl(H, t2);
+            for(int op = 0; op < 4; op++) { if(!CARRIER[alg][op]) { if(t2[op] != 20) { snprintf(b, sizeof b, "%s %d -> %d on a sounding note: modulator slot %d total level %u differs from the patch value 20", CN[ctl], v1, v2, op, t2[op]); o.fail("C11/modulator-touched", b + ctx); return; } continue; }
+                if(v2 == 0 && t2[op] != 127) { snprintf(b, sizeof b, "%s %d -> 0 on a sounding note: carrier slot %d total level %u, zero must silence it (127)", CN[ctl], v1, op, t2[op]); o.fail(std::string("C11/held-note/zero-not-silent/") + cn, b + ctx); return; }
+                if(v2 > v1 && t2[op] > t1[op]) { snprintf(b, sizeof b, "%s %d -> %d on a sounding note: carrier slot %d attenuation rose from %u to %u", CN[ctl], v1, v2, op, t1[op], t2[op]); o.fail(std::string("C11/held-note/not-monotone/") + cn, b + ctx); return; }
+                if(v2 < v1 && t2[op] < t1[op]) { snprintf(b, sizeof b, "%s %d -> %d on a sounding note: carrier slot %d attenuation fell from %u to %u", CN[ctl], v1, v2, op, t1[op], t2[op]); o.fail(std::string("C11/held-note/not-monotone/") + cn, b + ctx); return; } } }
         if(!range_ok(H, o, ctx)) return;
         o.units = 16384; if(i % 7 == 0) o.sample = ctx; o.nontrivial = true; };
       fams.push_back(F); }
